@@ -57,6 +57,7 @@ def parseRule4 (res thr iv ref : String) : Option Rule :=
 
 /-- `res,thr,iv,ref` (reject) or `res,thr,iv,ref,q<MaxQueueingTimeMs>` (throttling) -/
 def parseRule (s : String) : Option Rule :=
+  if s = "nil" then some { res := 0, thr := .invalid, iv := 0 } else     -- a nil *Rule in the list: ignored
   match s.splitOn "," with
   | [res, thr, iv, ref] => parseRule4 res thr iv ref
   | [res, thr, iv, ref, q] =>
@@ -179,7 +180,7 @@ def stepModel (st : DSt) (ts : List String) : DSt × Option String :=
   | ["sum", res] => match res.toNat? with
       | some res => match lookup st.s.nodes res with
         | some a => (st, some (toString (viewSum a dIv st.now)))
-        | none => (st, some "-")
+        | none => (st, some "0")        -- no node yet: nothing admitted (canonical form, the Go side prints 0 as well)
       | none => (st, some "bad-op")
   | _ => (st, some "bad-op")
 
@@ -230,8 +231,7 @@ def stepSpec (st : DSt) (ts : List String) : DSt × Option String :=
   | ["sum", res] => match res.toNat? with
       | some res =>
         if !st.mono || st.now = 0 then (st, some "?")
-        else if st.seen.contains res then (st, some (toString (windowTokens st.r.H res gL dIv st.now)))
-        else (st, some "-")
+        else (st, some (toString (windowTokens st.r.H res gL dIv st.now)))
       | none => (st, some "bad-op")
   | _ => (st, some "bad-op")
 
@@ -274,8 +274,12 @@ def stepOracle (st : DSt) (ts : List String) (line : String) : DSt × Option Str
       | some res, some bs, some sched, some (r, w) =>
         let ds := ((r.drop 1).dropEnd 1).toString.splitOn ","
         if ds.length ≠ bs.length then (st, some "bad-op") else
+        -- callers of a burst that slept (throttling rules) record at instants the trace does not show, somewhere between the
+        -- clock before and after the op. They are attributed to the EARLIEST possible instant: a token can then only leave a
+        -- later window sooner than it really does, never enter one it is not in, so the cap check stays sound (no false alarm)
+        let t0ms := st.now
         let st := { st with t := st.t + w }
-        let adm := (bs.zip ds).filterMap fun (b, d) => if d = "pass" then some ({ t := st.now, res := res, b := b } : Arrival) else none
+        let adm := (bs.zip ds).filterMap fun (b, d) => if d = "pass" then some ({ t := t0ms, res := res, b := b } : Arrival) else none
         let st' := { st with H := st.H ++ adm, width := max st.width (schedWidth sched), maxB := max st.maxB (bs.foldl max 0) }
         -- with sleeping rules the admitted callers of one burst may record at different instants: no claim
         if !st.mono || st.loads ≠ 1 || w ≠ 0 then (st', some "?") else
@@ -286,12 +290,81 @@ def stepOracle (st : DSt) (ts : List String) (line : String) : DSt × Option Str
   | ["sum", _] => (st, some "ok")
   | _ => (st, some "bad-op")
 
+/-! ### rules of a custom (strategy, behaviour) generator registered by the harness (`flow.SetTrafficShapingGenerator`)
+
+A rule token `res,thr,iv,ref,x<mode>` is built by the harness' generator, which never yields a controller:
+`xfail` returns an error (rule ignored), `xe<res>.<batch>` issues `api.Entry(res, batch)` from inside the rebuild and then
+returns an error, `xpanic` panics (the load is aborted by the manager's `recover`). Modelling assumption (checked by the
+correspondence run): a request issued inside the rebuild sees the **previous** rule set (the new one is swapped in at
+the end), an aborted load leaves the rules in force untouched. So a load with custom rules is the op sequence
+`entry…` (those before a panic), then the load with the custom rules voided — unless it was aborted. -/
+
+/-- `(rule tokens with custom rules voided, custom modes in order)` -/
+def splitCustom (rs : List String) : List String × List String :=
+  rs.foldr (fun tok acc =>
+    match tok.splitOn "," with
+    | [res, _, _, _, m] =>
+      if m.startsWith "x" then (s!"{res},f:bff0000000000000,0,-" :: acc.1, (m.drop 1).toString :: acc.2) else (tok :: acc.1, acc.2)
+    | _ => (tok :: acc.1, acc.2)) ([], [])
+
+/-- combine the results of the requests issued inside a load with the load's own result -/
+def combine (own : String) (inside : List String) : String :=
+  let all := own :: inside
+  if all.contains "?" then "?"
+  else
+    let strip (r : String) : String := if r.startsWith "?known:" then ((r.splitOn ":").drop 2 |> ":".intercalate) else r
+    let body := if inside.isEmpty then strip own else s!"{strip own} {showList (inside.map strip)}"
+    if all.any (·.startsWith "?known:") then s!"?known:{knownKey}:{body}" else body
+
+/-- run a `load` / `loadres` op that may contain custom-generator rules through `step` -/
+def withCustom (step : DSt → List String → DSt × Option String) (count : DSt → Nat) (st : DSt) (ts : List String) : DSt × Option String :=
+  let (head, rs) : List String × List String := match ts with
+    | "load" :: n :: rs => (["load", n], rs)
+    | "loadres" :: res :: n :: rs => (["loadres", res, n], rs)
+    | _ => (ts, [])
+  let (plain, customs) := splitCustom rs
+  -- `LoadRulesOfResource("", …)`: "empty resource" error before anything is looked at
+  if head.take 2 == ["loadres", "_"] then ({ st with nrules := st.nrules + rs.length }, some s!"err {count st}") else
+  if customs.isEmpty then step st ts else
+  -- the requests issued from inside the rebuild, up to a panic
+  let rec go (st : DSt) (acc : List String) : List String → DSt × List String × Bool
+    | [] => (st, acc, false)
+    | m :: ms =>
+      if m = "panic" then (st, acc, true)
+      else if m.startsWith "e" then
+        match (m.drop 1).toString.splitOn "." with
+        | [res, b] =>
+          match stripType ["entry", res, b] with
+          | some e => let x := step st e; go x.1 (acc ++ [x.2.getD "bad-op"]) ms
+          | none => go st (acc ++ ["bad-op"]) ms
+        | _ => go st (acc ++ ["bad-op"]) ms
+      else go st acc ms
+  let (st1, inside, aborted) := go st [] customs
+  if inside.contains "bad-op" then (st1, some "bad-op")
+  -- an aborted load still consumed the ids of its rule objects
+  else if aborted then ({ st1 with nrules := st1.nrules + rs.length }, some (combine s!"err {count st1}" inside))
+  else
+    let x := step st1 (head ++ plain)
+    (x.1, x.2.map fun own => combine own inside)
+
+def isLoad (ts : List String) : Bool := match ts with | "load" :: _ => true | "loadres" :: _ => true | _ => false
+
 def run (mode : String) : IO Unit :=
   if mode == "spec" then loop ({} : DSt) (fun st ts _ => match stripType ts with
-    | some ts => stepSpec st ts | none => (st, some "bad-op"))
+    | some ts => if isLoad ts then withCustom stepSpec (·.r.ctrls.length) st ts else stepSpec st ts
+    | none => (st, some "bad-op"))
   else if mode == "oracle" then loop ({} : DSt) (fun st ts line => match stripType ts with
-    | some ts => stepOracle st ts line | none => (st, some "bad-op"))
+    | some ts =>
+      if isLoad ts then
+        let (head, rs) : List String × List String := match ts with
+          | "load" :: n :: rs => (["load", n], rs)
+          | "loadres" :: res :: n :: rs => (["loadres", res, n], rs)
+          | _ => (ts, [])
+        stepOracle st (head ++ (splitCustom rs).1) line
+      else stepOracle st ts line
+    | none => (st, some "bad-op"))
   else loop ({} : DSt) (fun st ts _ => match stripType ts with
-    | some ts => stepModel st ts | none => (st, some "bad-op"))
+    | some ts => if isLoad ts then withCustom stepModel (·.s.ctrls.length) st ts else stepModel st ts
+    | none => (st, some "bad-op"))
 
 end Sentinel.Drv.C02
